@@ -95,16 +95,20 @@ def stress_part(ctx):
     n = 0
     for name, arg in T.PASSES:
         for text in STRESS:
+            # CPU time of this process, not wall clock: a loaded machine must not make a healthy pass look stalled
+            signal.signal(signal.SIGPROF, _slow)
             signal.signal(signal.SIGALRM, _slow)
-            signal.setitimer(signal.ITIMER_REAL, 6.0)
+            signal.setitimer(signal.ITIMER_PROF, 20.0)
+            signal.setitimer(signal.ITIMER_REAL, 600.0)
             try:
                 kpass.drive_real(name, arg, text, [False, True, False, False], ctx.scratch)
             except _Slow:
-                ctx.report(f'pass-stalls-on-one-candidate:{name}', f'{name}::{arg} did not get through 4 candidates in 6 s on {text[:50]!r}… ({len(text)} characters)',
+                ctx.report(f'pass-stalls-on-one-candidate:{name}', f'{name}::{arg} did not get through 4 candidates in 20 s of CPU time on {text[:50]!r}… ({len(text)} characters)',
                            {'kind': 'stress', 'pass': name, 'arg': arg, 'text': text})
             except Exception:
                 pass
             finally:
+                signal.setitimer(signal.ITIMER_PROF, 0)
                 signal.setitimer(signal.ITIMER_REAL, 0)
             n += 1
     ctx.cov['evaluations'] += n
